@@ -1090,3 +1090,8 @@ V("harmonic_set closes the quadrilateral through c instead of a", "C11", OPS, _H
 V("harmonic_set returns the diagonal point instead of meeting the line", "C11", OPS, _HARM, "    result = meet(o.join(a), p.join(b))", "E19.harm", "harmonic_set")
 V("twin: harmonic_set with another second point on the line through the auxiliary point", "C11", OPS, "    p = o + 1 / 2 * m.direction", "    p = o + 2 * m.direction", "silent")
 V("twin: harmonic_set with the two diagonal points exchanged", "C11", OPS, _HARM, "    result = l.meet(join(meet(o.join(b), p.join(a)), meet(o.join(a), p.join(b))))", "silent")
+
+
+# ------------------------------------------------------------------------------------------------ the midpoint of a segment (E19.mid, C17)
+V("midpoint as the harmonic conjugate of the first vertex", "C17", SHAPES, "        return harmonic_set(*self.vertices, l)", "        return harmonic_set(l, self.vertices[1], self.vertices[0])", "E19.mid", "SegmentTensor.midpoint", quick=True)
+V("twin: midpoint with the vertices unpacked by hand", "C17", SHAPES, "        return harmonic_set(*self.vertices, l)", "        a, b = self.vertices\n        return harmonic_set(a, b, l)", "silent")
